@@ -10,5 +10,6 @@ Step(objs, opts, call) ==
   ELSE IF call.op \in CodecOps THEN CodecStep(objs, opts, call)
   ELSE IF call.op \in FormatOps THEN FormatStep(objs, opts, call)
   ELSE IF call.op \in SerialOps THEN SerialStep(objs, opts, call)
+  ELSE IF call.op \in DeriveOps THEN DeriveStep(objs, opts, call)
   ELSE Unconstrained
 =============================================================================
